@@ -159,6 +159,9 @@ type walFile struct {
 func readDPWals(walDir string) ([]walFile, error) {
 	ents, err := os.ReadDir(walDir)
 	if err != nil {
+		if os.IsNotExist(err) {
+			return nil, nil // the server died before it created its first WAL
+		}
 		return nil, err
 	}
 	var out []walFile
